@@ -14,6 +14,12 @@ component; `NoSlash i` no `/` in a category, type or language tag; `canon i` the
 identities, sorted distinct features, FORM_TYPE value and per key the appended values); `Plain` a non-empty string or
 non-empty list value; `XepForm` unique `var`s and a single-valued FORM_TYPE.
 
+Scope: the property is about the hash this client GENERATES and advertises versus what it ANSWERS.  The verification
+direction (checking the `ver` other entities advertise against their disco#info, XEP-0115 §5.4) is not part of it: qxmpp
+has no such code path (`verificationString()` is only called from `addProperCapability`), and `verStringSpec` is applied
+to the wire view of our own objects.  XEP-0390 (Entity Capabilities 2.0) is not emitted by the library (no `urn:xmpp:caps`
+anywhere in src/), so there is nothing to relate.
+
 State of the tree: repo commits 0beac74 (sorting by UTF-8 octets) and eee8133 (`capabilities()` removes repeated
 features) are in; the model follows them, and the former `C20_defect_utf16_order` / `C20_defect_reply_repeats_feature`
 are gone (their witnesses stay in the harness corpus and as examples below).
@@ -247,36 +253,107 @@ theorem advertised_eq_xep_hash_of_answer {β : Type} (H : Str → β) (c : Clien
   have e := code_eq_spec (capabilities c) hx hp
   simp [answeredInfo, advertisedVer, isPrefixOf_self_append, ver, e]
 
-/-- **Over any history, every emitted presence advertises the hash of what is answered at that moment**: whatever
-sequence of reconfigurations, publications (with a fresh presence or one derived from `clientPresence()`, which already
-carries an older `ver`) and queries, each presence carries `ver` = hash of `capabilities()` of the configuration in
-force when it is emitted, and a disco#info `get` for `node#anything` under that configuration is answered with an info
-set of exactly that `ver` — for ANY capabilities node string (with `#`, ending in `#`, …): the answer only requires the
-queried node to start with the configured one.  The plain node and a query without node are answered with the same info
-set (`advertised_node_always_answered`).  (Between two publications the advertised hash can be stale; nothing is claimed
-there.  With an empty capabilities node the presence carries no caps element: nothing is advertised.) -/
-theorem every_published_ver_is_answered {β : Type} (H : Str → β) (s : ClientSt β) (ops : List ClientOp)
-    (c : ClientCfg) (v : β) (hm : (c, ClientOut.presence (some v)) ∈ (clientRun H s ops).2) :
-    v = advertisedVer H c ∧ ∀ x : Str, (answeredInfo c (c.node ++ '#' :: x)).map (ver H) = some v := by
-  induction ops generalizing s with
+/-! ### the stored presence over a history (which emission sites recompute the caps, which send the stored copy) -/
+
+/-- the stored caps are those of the current configuration -/
+def Fresh {β : Type} (H : Str → β) (s : ClientSt β) : Prop := s.stored = freshCaps H s.cfg
+
+/-- a history in which no presence is emitted from the stored copy after a reconfiguration that was not followed by
+`setClientPresence` / `connectToServer` (`f` = the stored caps are known to be fresh at the start) -/
+def Disciplined : Bool → List ClientOp → Prop
+  | _, [] => True
+  | _, .configure _ :: r => Disciplined false r
+  | _, .setClientPresence _ :: r => Disciplined true r
+  | _, .connectToServer _ :: r => Disciplined true r
+  | f, .emitStored _ :: r => f = true ∧ Disciplined f r
+  | f, .query _ :: r => Disciplined f r
+
+/-- **What fresh caps mean**: node = the configured node, `ver` = hash of `capabilities()`, and a disco#info `get` for
+`node#ver…`, for the plain node and without node is answered with an info set of exactly that `ver`. -/
+theorem fresh_caps_are_answered {β : Type} (H : Str → β) (c : ClientCfg) (n : Str) (v : β)
+    (h : freshCaps H c = some (n, v)) :
+    n = c.node ∧ v = advertisedVer H c ∧ ∀ x : Str,
+      (answeredInfo c (n ++ '#' :: x)).map (ver H) = some v ∧ (answeredInfo c n).map (ver H) = some v ∧
+      (answeredInfo c []).map (ver H) = some v := by
+  simp only [freshCaps] at h
+  split at h
+  · simp at h
+  · simp only [Option.some.injEq, Prod.mk.injEq] at h
+    obtain ⟨rfl, rfl⟩ := h
+    refine ⟨rfl, rfl, fun x => ?_⟩
+    have h1 := isPrefixOf_self_append c.node []
+    simp only [append_nil] at h1
+    simp [answeredInfo, isPrefixOf_self_append, h1, advertisedVer]
+
+/-- **`setClientPresence` always advertises the current hash** — with a fresh presence or one derived from
+`clientPresence()` (which already carries older caps), after any history. -/
+theorem setClientPresence_emits_fresh_caps {β : Type} (H : Str → β) (s : ClientSt β) (derived : Bool) :
+    (clientStep H s (.setClientPresence derived)).2 = [.presence (freshCaps H s.cfg)] ∧
+    Fresh H (clientStep H s (.setClientPresence derived)).1 ∧ Fresh H (clientStep H s (.connectToServer derived)).1 := by
+  simp [clientStep, Fresh]
+
+/-- **Over any disciplined history, every emitted presence advertises the hash of what is answered at that moment**
+(then `fresh_caps_are_answered` applies): every presence emitted by `setClientPresence`, at session start (also on
+automatic reconnection), by `disconnectFromServer` or by a MUC join carries the caps of the configuration then in force,
+provided no reconfiguration happened since the last `setClientPresence` / `connectToServer`. -/
+theorem every_emitted_caps_are_fresh_in_disciplined_histories {β : Type} (H : Str → β) (s : ClientSt β) (f : Bool)
+    (ops : List ClientOp) (hf : f = true → Fresh H s) (hd : Disciplined f ops)
+    (s' : ClientSt β) (p : Option (Str × β)) (hm : (s', ClientOut.presence p) ∈ (clientRun H s ops).2) :
+    p = freshCaps H s'.cfg := by
+  induction ops generalizing s f with
   | nil => simp [clientRun] at hm
   | cons op ops ih =>
     simp only [clientRun, mem_append, mem_map] at hm
-    rcases hm with ⟨o, ho, he⟩ | hm
-    · cases op with
-      | configure c' => simp [clientStep] at ho
-      | query n => simp only [clientStep, mem_singleton] at ho; subst ho; simp at he
-      | publish d =>
-        simp only [clientStep, mem_singleton] at ho
+    cases op with
+    | configure c =>
+      rcases hm with ⟨o, ho, _⟩ | hm
+      · simp [clientStep] at ho
+      · exact ih _ false (by simp) hd hm
+    | query n =>
+      rcases hm with ⟨o, ho, he⟩ | hm
+      · simp only [clientStep, mem_singleton] at ho; subst ho; simp at he
+      · exact ih _ f hf hd hm
+    | setClientPresence d =>
+      rcases hm with ⟨o, ho, he⟩ | hm
+      · simp only [clientStep, mem_singleton] at ho
         subst ho
         simp only [Prod.mk.injEq, ClientOut.presence.injEq] at he
-        obtain ⟨rfl, he⟩ := he
-        split at he
-        · simp at he
-        · simp only [Option.some.injEq] at he
-          subst he
-          exact ⟨rfl, fun x => (advertised_eq_answered H s.cfg x).1⟩
-    · exact ih _ hm
+        obtain ⟨rfl, rfl⟩ := he
+        rfl
+      · exact ih _ true (fun _ => by simp [clientStep, Fresh]) hd hm
+    | connectToServer d =>
+      rcases hm with ⟨o, ho, _⟩ | hm
+      · simp [clientStep] at ho
+      · exact ih _ true (fun _ => by simp [clientStep, Fresh]) hd hm
+    | emitStored site =>
+      rcases hm with ⟨o, ho, he⟩ | hm
+      · simp only [clientStep, mem_singleton] at ho
+        subst ho
+        simp only [Prod.mk.injEq, ClientOut.presence.injEq] at he
+        obtain ⟨rfl, rfl⟩ := he
+        exact hf hd.1
+      · exact ih _ f hf hd.2 hm
+
+/-- two configurations with different hashes (for the witness below; `H` = identity, i.e. no collision involved) -/
+def cfgOld : ClientCfg :=
+  { category := "client".toList, type := "pc".toList, name := ['a'], baseFeatures := [['f']], extFeatures := [],
+    extIdentities := [], infoForm := none, node := ['n'] }
+def cfgNew : ClientCfg := { cfgOld with extFeatures := [[['g']]] }
+
+/-- **Defect (stale caps at the sites that send the stored presence).** The unrestricted statement — every emitted
+presence carries the caps of the configuration in force — is false: after `connectToServer`, an `addExtension` (or any
+other reconfiguration), the initial presence sent at session start (or by a later automatic reconnection, a MUC join,
+`disconnectFromServer`) still carries the hash computed at `connectToServer` time
+(keys `C20:stale-ver:session-start`, `C20:stale-ver:muc-join`, `C20:stale-ver:disconnect`). -/
+theorem C20_defect_stale_caps_on_stored_emission :
+    ¬ ∀ (ops : List ClientOp) (s' : ClientSt Str) (p : Option (Str × Str)),
+        (s', ClientOut.presence p) ∈ (clientRun (fun x => x) { cfg := cfgOld } ops).2 → p = freshCaps (fun x => x) s'.cfg := by
+  intro h
+  have x1 := h [.connectToServer false, .configure cfgNew, .emitStored .sessionStart]
+    { cfg := cfgNew, stored := freshCaps (fun x => x) cfgOld } (freshCaps (fun x => x) cfgOld)
+    (by simp [clientRun, clientStep])
+  revert x1
+  decide
 
 /-- **The advertised node is always answered**: `node#anything`, the plain node and the empty node are never
 item-not-found, whatever characters the configured node contains. -/
@@ -286,15 +363,6 @@ theorem advertised_node_always_answered (c : ClientCfg) (x : Str) :
   have h := isPrefixOf_self_append c.node []
   simp only [append_nil] at h
   simp [answeredInfo, isPrefixOf_self_append, h]
-
-/-- …in particular a publication derived from the previous presence after a reconfiguration carries the NEW hash,
-and the query that follows is answered with it. -/
-theorem republish_after_reconfigure {β : Type} (H : Str → β) (s : ClientSt β) (c' : ClientCfg) (derived : Bool) (x : Str)
-    (hs : s.cfg.node ≠ []) (hc : c'.node ≠ []) :
-    (clientRun H s [.publish false, .configure c', .publish derived, .query (c'.node ++ '#' :: x)]).2 =
-      [(s.cfg, .presence (some (advertisedVer H s.cfg))), (c', .presence (some (advertisedVer H c'))),
-       (c', .answer (some (advertisedVer H c')))] := by
-  simp [clientRun, clientStep, answeredInfo, isPrefixOf_self_append, advertisedVer, hs, hc]
 
 /-- **The answer lists every feature once** (XEP-0115 §5.4 item 4 makes a verifying peer reject a repeated feature),
 whatever the client and its extensions contribute — since eee8133. -/
@@ -361,12 +429,16 @@ def cfgA : ClientCfg :=
     extIdentities := [[], [⟨"automation".toList, "rpc".toList, [], []⟩]],
     infoForm := some formA, node := "https://example.org/client".toList }
 example : PlainForm cfgA.infoForm ∧ DistinctKeys cfgA.infoForm := ⟨by decide, by decide⟩
-/-- a history in which the second presence really differs from the first (so the statement above is not about a constant) -/
-example :
-    ((clientRun (fun s => s) { cfg := cfgA } [.publish false, .configure { cfgA with name := ['x'] }, .publish true]).2.map (·.2)).length = 2 ∧
-    ((clientRun (fun s => s) { cfg := cfgA } [.publish false, .configure { cfgA with name := ['x'] }, .publish true]).2.map (·.2))[0]? ≠
-    ((clientRun (fun s => s) { cfg := cfgA } [.publish false, .configure { cfgA with name := ['x'] }, .publish true]).2.map (·.2))[1]? := by
-  decide +kernel
+/-- a disciplined history with two different hashes (so the statement is not about a constant), and the same history made
+undisciplined by leaving out the second `setClientPresence` -/
+example : Disciplined false [.connectToServer false, .emitStored .sessionStart, .configure cfgNew, .setClientPresence true,
+    .emitStored .mucJoin, .query ['n'], .emitStored .disconnect] ∧
+    ¬ Disciplined false [.connectToServer false, .emitStored .sessionStart, .configure cfgNew, .emitStored .mucJoin] := by
+  simp [Disciplined]
+example : ((clientRun (fun s => s) { cfg := cfgOld } [.connectToServer false, .emitStored .sessionStart, .configure cfgNew,
+    .setClientPresence true, .emitStored .mucJoin]).2.map (·.2)) =
+    [.presence (freshCaps (fun s => s) cfgOld), .presence (freshCaps (fun s => s) cfgNew), .presence (freshCaps (fun s => s) cfgNew)] ∧
+    freshCaps (fun s => s) cfgOld ≠ freshCaps (fun s => s) cfgNew := by decide
 /-- a capabilities node that itself contains `#` (XEP-0115 allows any URI): `node#ver` and the plain node are answered -/
 example : (answeredInfo { cfgA with node := "http://example.org/products#demo".toList } "http://example.org/products#demo#q07IKJEyjvHSyhy//CH0CxmKi8w=".toList).isSome = true ∧
     (answeredInfo { cfgA with node := "http://example.org/products#demo".toList } "http://example.org/products#demo".toList).isSome = true ∧
